@@ -37,19 +37,46 @@ def run(ctx):
     docstring_count_ignores_comments(ctx)
 
 
-def a_b_conversion(ctx):
-    t = ctx.tree.ast(CFGPY)
-    fn = find_function(t, "_parse_colang_files_recursively")
-    if fn is None:
+def _loader_functions(t):
+    """The functions of the config loader that parse Colang file content / resolve imports: _parse_colang_files_recursively and the helpers it delegates the per-file
+    loop to (whatever they are called)."""
+    root = find_function(t, "_parse_colang_files_recursively")
+    if root is None:
         for f in functions(t):
             if "parse_colang_file" in src(f) and "ColangParsingError" in src(f):
-                fn = f
-    if fn is None:
+                root = f
+    if root is None:
         raise AnalysisError("_parse_colang_files_recursively not found", anchor=CFGPY + "::_parse_colang_files_recursively")
+    out = [root]
+    names = {f.name: f for f in functions(t)}
+    work = [root]
+    while work:
+        f = work.pop()
+        for c in walk_no_nested(f):
+            if isinstance(c, ast.Call) and isinstance(c.func, ast.Name) and c.func.id in names and names[c.func.id] not in out \
+                    and any(isinstance(x, ast.Call) and src(x.func) in ("parse_colang_file", "_load_imported_paths") for x in walk_no_nested(names[c.func.id])) \
+                    and c.func.id not in ("parse_colang_file", "_load_imported_paths"):
+                out.append(names[c.func.id])
+                work.append(names[c.func.id])
+    return out
+
+
+def a_b_conversion(ctx):
+    t = ctx.tree.ast(CFGPY)
+    fns = _loader_functions(t)
+    n_file_calls = sum(1 for fn in fns for c in walk_no_nested(fn) if isinstance(c, ast.Call) and src(c.func) == "parse_colang_file"
+                       and any(isinstance(p, ast.With) and "open(" in src(p.items[0].context_expr) for p in _anc(c, fn)))
+    ctx.floor("C13.a.conversion", CFGPY, "parse_colang_file calls on file content", n_file_calls, 1)
+    n_imps = sum(1 for fn in fns for c in walk_no_nested(fn) if isinstance(c, ast.Call) and src(c.func) == "_load_imported_paths")
+    ctx.floor("C13.a.conversion", CFGPY, "import resolution inside the per-file loop", n_imps, 1)
+    for fn in fns:
+        _conversion_in(ctx, t, fn)
+
+
+def _conversion_in(ctx, t, fn):
     calls = [c for c in walk_no_nested(fn) if isinstance(c, ast.Call) and src(c.func) == "parse_colang_file"]
     # the call that parses a *file's content* (content read from an opened file)
     file_calls = [c for c in calls if any(isinstance(p, ast.With) and "open(" in src(p.items[0].context_expr) for p in _anc(c, fn))]
-    ctx.floor("C13.a.conversion", CFGPY, "parse_colang_file calls on file content", len(file_calls), 1)
     cg = CallGraph(ctx.tree, [CFGPY])
     for c in file_calls:
         trys = [(t_, part) for t_, part in enclosing_trys(c, fn) if part == "body"]
@@ -89,7 +116,6 @@ def a_b_conversion(ctx):
                 _handler_totality(ctx, cg, CFGPY, fn, h)
     # imports written in a file are part of its content: resolving them must fail as a parsing error naming that file
     imps = [c for c in walk_no_nested(fn) if isinstance(c, ast.Call) and src(c.func) == "_load_imported_paths"]
-    ctx.floor("C13.a.conversion", CFGPY, "import resolution inside the per-file loop", len(imps), 1)
     res = find_function(t, "_load_imported_paths")
     raised = sorted({src(r.exc.func) for r in ast.walk(res) if isinstance(r, ast.Raise) and isinstance(r.exc, ast.Call)}) if res else []
     for c in imps:
@@ -99,8 +125,10 @@ def a_b_conversion(ctx):
         if trys:
             tr = trys[0][0]
             hs = [h for h in tr.handlers if h.type is None or src(h.type) in raised + ["Exception"] or any(src(x) in raised for x in (h.type.elts if isinstance(h.type, ast.Tuple) else []))]
+            has_file = any(isinstance(n, ast.Name) and n.id == "current_path" and isinstance(n.ctx, ast.Store) for n in ast.walk(fn)) and \
+                any(isinstance(w_, (ast.While, ast.For)) for w_ in _anc(c, fn))
             conv = [h for h in hs if any(isinstance(r, ast.Raise) and isinstance(r.exc, ast.Call) and src(r.exc.func) == "ColangParsingError"
-                                         and any(isinstance(n, ast.Name) and n.id == "current_path" for n in ast.walk(r.exc)) for r in ast.walk(h))]
+                                         and (not has_file or any(isinstance(n, ast.Name) and n.id == "current_path" for n in ast.walk(r.exc))) for r in ast.walk(h))]
             ok = bool(conv)
             why = "a handler for %s raises ColangParsingError naming current_path" % raised if ok else "no handler converts %s into ColangParsingError naming the file" % raised
         ctx.check("C13.a.conversion", CFGPY, fn.name, first_line(c), ok,
@@ -677,11 +705,12 @@ def loop_progress(ctx):
     """`never a hang` for the loader's own loop: every iteration of the file loop records the file as parsed
     (or leaves by an exception)."""
     t = ctx.tree.ast(CFGPY)
-    fn = find_function(t, "_parse_colang_files_recursively")
-    cfg = CFG(fn)
-    loops = [n for n in cfg.nodes if n.kind == "test" and isinstance(n.stmt, ast.While) and "len(" in src(n.ast)]
-    ctx.floor("C13.e.loop-progress", CFGPY, "file loop of the Colang loader", len(loops), 1)
-    for w in loops:
+    per_fn = []
+    for fn in _loader_functions(t):
+        cfg = CFG(fn)
+        per_fn.append((fn, cfg, [n for n in cfg.nodes if n.kind == "test" and isinstance(n.stmt, ast.While) and "len(" in src(n.ast)]))
+    ctx.floor("C13.e.loop-progress", CFGPY, "file loop of the Colang loader", sum(len(l) for _, _, l in per_fn), 1)
+    for fn, cfg, w in [(f_, c_, w_) for f_, c_, ls in per_fn for w_ in ls]:
         m = re.match(r"^len\((\w+)\) != len\((\w+)\)$", src(w.ast))
         if not m:
             ctx.check("C13.e.loop-progress", CFGPY, fn.name, src(w.ast), False, "loop condition is not a length comparison of the parsed list and the file list", line=w.line)
